@@ -4,6 +4,11 @@ Tie (H): seeded scenarios (declare_block_partition, get_block on leaves / combin
 again / distinct objects with equal decomposition, add_partition_constraints once or twice) are run on the real
 PEPit and on Model/Blocks.v (`run_world`); every returned block dictionary, the identity of the returned object,
 Point.counter and the full constraint lists (dictionaries, sense, order) must agree exactly.
+Solve time: scenarios contain several partitions (one block, never used, declared through the PEP, through another PEP
+object, with the class constructor, before / after use) and pep.solve() through harness/recording.py's wrapper; the
+scalar constraints in pep._list_of_constraints_sent_to_wrapper must be exactly the model's
+`sent_partition_constraints` (concatenation over ALL partitions); fixed solved instances check that the cross-block
+Gram products of the returned solution are 0.
 Search: on the implementation alone, with real coordinate partitions of Q^n in exact Fractions (blockslib.check_real)."""
 import json
 import random
@@ -15,6 +20,8 @@ GEN_DEPS = []
 TRUSTED = [
     "Model/Blocks.v: hand model of BlockPartition.get_block / add_partition_constraints and of the solve-time loop of "
     "pep.py over BlockPartition.list_of_partitions (tied by the `block-scenarios` stream)",
+    "harness/recording.py RecordingWrapper stands for the solver when the constraints reaching the wrapper are compared "
+    "(PEPit's own _solve_with_wrapper runs unchanged up to wrapper.solve)",
     "identity of Python objects is represented by the object numbers the harness assigns (Point has no __eq__/__hash__)",
     "Base/IPS.v Rn: R^n as functions nat -> R observed on coordinates < n; coordinate-block projection = masking by a "
     "block-assignment function blk : nat -> nat",
@@ -42,7 +49,8 @@ def run_impl(ops, values=None):
 def nontrivial(ops):
     """a scenario counts when at least one object is decomposed with d >= 2 and a constraint list is generated"""
     ds = [o[1] for o in ops if o[0] == "WPart"]
-    return any(o[0] == "WGet" and ds[o[1]] >= 2 and o[3] < ds[o[1]] for o in ops) and any(o[0] == "WCons" for o in ops)
+    return any(o[0] == "WGet" and ds[o[1]] >= 2 and o[3] < ds[o[1]] for o in ops) and \
+        any(o[0] in ("WCons", "WSolve") for o in ops)
 
 
 def correspondence(tier, seed, corpus=()):
@@ -74,6 +82,9 @@ def correspondence(tier, seed, corpus=()):
                 stats["gets"] += 1
                 if out == "AssertionError":
                     stats["rejected"] += 1
+            if op[0] == "WSolve":
+                stats["solves"] = stats.get("solves", 0) + 1
+                stats["sent_at_solve"] = stats.get("sent_at_solve", 0) + len(out)
             if op[0] == "WCons":
                 stats["constraints"] += len(out)
                 stats["max_constraints_in_a_list"] = max(stats["max_constraints_in_a_list"], len(out))
@@ -88,15 +99,19 @@ def correspondence(tier, seed, corpus=()):
                          model=model_output(IMPORTS, RUN, cases[i][0])[:3000]))
     sizes = [len(o) for o, _ in runs]
     return [_scenario_stream(cases, distinct, mism, bad, problems, runs, hist, sizes, stats),
-            real_stream(tier, seed), solve_stream(), block_smooth_stream(tier, seed)]
+            real_stream(tier, seed), solve_stream(), multi_partition_solve_stream(),
+            block_smooth_stream(tier, seed)]
 
 
 def _scenario_stream(cases, distinct, mism, bad, problems, runs, hist, sizes, stats):
     return dict(name="block-scenarios", evaluations=len(cases), distinct_nontrivial=len(distinct),
                 rule="seeded scenarios over <= 3 partitions with 1 <= d <= 4: get_block on leaves, operator-built "
                      "combinations, blocks, the same object again, twin objects with equal decomposition, invalid block "
-                     "numbers; add_partition_constraints once or twice per partition; non-trivial = some object "
-                     "decomposed with d >= 2 and a constraint list generated; distinct by op list",
+                     "numbers; partitions created through the PEP / another PEP object / the class constructor, some with one "
+                     "block, some never used, declared before or after use; add_partition_constraints by hand once or twice "
+                     "and pep.solve() through the recording wrapper (everything in _list_of_constraints_sent_to_wrapper is "
+                     "compared); non-trivial = some object decomposed with d >= 2 and a constraint list generated or sent; "
+                     "distinct by op list",
                 mismatches=mism, n_mismatch=len(bad), problems=problems[:5], n_problems=len(problems),
                 samples=[dict(ops=runs[i][0], outputs=runs[i][1]) for i in range(min(1, len(runs)))],
                 distribution=dict(ops=hist, scenario_len_min=min(sizes), scenario_len_max=max(sizes), **stats))
@@ -213,6 +228,82 @@ def solve_stream():
                 distribution=dict(d=[1, 2, 3]))
 
 
+MULTI_INSTANCES = [(how, extra) for how in ("pep", "ctor", "other")
+                   for extra in (None, "unused-2-block-first", "one-block-used-after", "unused-3-block-ctor-after",
+                                 "one-block-unused-first")]
+
+
+def solved_instance(how, extra):
+    """one solved PEP with several partitions.  Two leaf points x, y and z = x - 2y; a 3-block partition (created
+    `how`: through the PEP, through another PEP object, or with the class constructor) decomposes x and z (y never);
+    every block has norm <= 1; maximise <x0,x1> + <x2,z0> + <z1,x0> + <z2,z1> (products of DIFFERENT blocks only).
+    `extra` adds a partition that induces no relation (one block, or never used), before or after.  Whatever the
+    other partitions look like the 12 relations must be formulated and sent, the value is 0 and every cross-block
+    Gram product of the returned solution is 0.  Returns a problem dict or None."""
+    from PEPit import PEP, Point, BlockPartition
+    other = PEP()
+    pb = PEP()
+    d = 3
+
+    def make(dd, h):
+        return BlockPartition(d=dd) if h == "ctor" else (other if h == "other" else pb).declare_block_partition(d=dd)
+
+    if extra == "unused-2-block-first":
+        make(2, "pep")
+    if extra == "one-block-unused-first":
+        make(1, "ctor")
+    part = make(d, how)
+    x, y = Point(), Point()
+    z = x - 2 * y
+    xb = [part.get_block(x, k) for k in range(d)]
+    zb = [part.get_block(z, k) for k in range(d)]
+    if extra == "one-block-used-after":
+        ident = make(1, "pep")
+        ident.get_block(x, 0)
+    if extra == "unused-3-block-ctor-after":
+        make(3, "ctor")
+    for b in xb + zb:
+        pb.add_constraint(b ** 2 <= 1)
+    pb.set_performance_metric(xb[0] * xb[1] + xb[2] * zb[0] + zb[1] * xb[0] + zb[2] * zb[1])
+    inst = dict(instance=[how, extra])
+    try:
+        tau = pb.solve(verbose=0)
+    except Exception as e:
+        return dict(kind="solve-raised", error=repr(e), **inst)
+    fams = [xb, zb]
+    expected = len(fams) ** 2 * d * (d - 1) // 2
+    n_form = len(part.list_of_constraints)
+    n_sent = sum(1 for c in part.list_of_constraints if any(c is s for s in pb._list_of_constraints_sent_to_wrapper))
+    if n_form != expected or n_sent != expected:           # exact: decides
+        return dict(kind="multi-partition-relations-missing-at-solve", formulated=n_form, sent=n_sent,
+                    expected=expected, value=tau, **inst)
+    if tau is None:
+        return dict(kind="multi-partition-solve-unbounded", **inst)
+    cross = max(abs(float((pi[k] * pj[l]).eval())) for pi in fams for pj in fams
+                for k in range(d) for l in range(d) if k != l)
+    # solver floats: wide margins only (a missing relation gives value >= 1 and cross products of size 1)
+    if abs(tau) > 0.05 or cross > 0.05:
+        return dict(kind="cross-block-gram-products-not-zero-in-solution", value=tau, max_cross_product=cross, **inst)
+    return None
+
+
+def multi_partition_solve_stream():
+    problems, samples = [], []
+    for how, extra in MULTI_INSTANCES:
+        bad = solved_instance(how, extra)
+        if bad:
+            problems.append(bad)
+        if len(samples) < 2:
+            samples.append(dict(instance=[how, extra], verdict="ok" if not bad else bad["kind"]))
+    return dict(name="multi-partition-solved", evaluations=len(MULTI_INSTANCES), distinct_nontrivial=len(MULTI_INSTANCES),
+                rule="fixed tiny PEPs solved with cvxpy/SCS: the 3-block partition created through the PEP / another PEP "
+                     "object / the class constructor, alone or together with a one-block or never-used partition declared "
+                     "before or after; 12 relations formulated and sent (exact), value and cross-block Gram products 0 "
+                     "(margin 0.05); every instance is distinct and non-trivial",
+                mismatches=[], n_mismatch=0, problems=problems[:3], n_problems=len(problems), samples=samples,
+                distribution=dict(instances=[list(map(str, i)) for i in MULTI_INSTANCES]))
+
+
 def search_one(rng, ops=None, n=None):
     n = n or rng.randint(1, 6)
     ops = ops or B.gen_scenario(rng, max_dec=5)
@@ -233,7 +324,12 @@ def search_one(rng, ops=None, n=None):
 
 
 def search(tier, seed):
-    """failing-input search on the implementation alone: real coordinate partitions of Q^n, n <= 6"""
+    """failing-input search on the implementation alone: solved multi-partition instances, then scenarios under real
+    coordinate partitions of Q^n, n <= 6"""
+    for how, extra in MULTI_INSTANCES:
+        bad = solved_instance(how, extra)
+        if bad:
+            return bad
     rng = random.Random(seed + 151515)
     for _ in range(600 if tier == "quick" else 6000):
         bad = search_one(rng)
@@ -264,6 +360,10 @@ def is_known(payload, known):
 def replay(payload):
     """True iff the stored scenario still fails (on the implementation's own checks, under real partitions, or
     against the model)"""
+    if "instance" in payload and "ops" not in payload:
+        return solved_instance(*payload["instance"]) is not None
+    if "ops" not in payload:
+        return any(s.get("n_problems") or s.get("n_mismatch") for s in [solve_stream(), multi_partition_solve_stream()])
     ops = [_detuple(o) for o in payload["ops"]]
     for s in range(5):
         bad = search_one(random.Random(s), ops=ops, n=payload.get("n"))
